@@ -214,6 +214,45 @@ def do_iterator_keys(hub, U, letters, rng):
             pass
 
 
+def do_big_reads_writes(rec, hub, rng):
+    """slice reads and writes on arrays of 10^4 - 10^5 entries, judged by np.take / explicit index arithmetic"""
+    fd = hub.fd
+    M = "large-arrays"
+    U = gen.big_universe(fd, rng)
+    la = tuple(str(q) for q in rng.permutation(list("abcd"))[: int(rng.integers(2, 5))])
+    v = gen.relayout(gen.big_values(rng, gen.shape_of(U, la), "dyadic"), rng)
+    x = fd.FlodymArray(dims=gen.dimset(fd, U, la), values=v.copy(order="K"))
+    # one single item, one subset (random order) on two different dimensions
+    l1, l2 = la[0], la[-1]
+    it1 = U[l1].items[int(rng.integers(0, len(U[l1].items)))]
+    pos2 = rng.permutation(len(U[l2].items))[: max(1, len(U[l2].items) // 3)].tolist()
+    sub_ = fd.Dimension(letter=l2.upper(), name="sub " + U[l2].name, items=[U[l2].items[p_] for p_ in pos2])
+    key = {l1: it1, U[l2].name: sub_}
+    ref = np.take(np.take(v, U[l1].items.index(it1), axis=0), pos2, axis=len(la) - 2)
+    rec.event(M, sig=f"big-read|{la}|{v.shape}", cls="big|getitem", sample={"dims": list(la), "shape": list(v.shape)})
+    try:
+        r = x[key]
+        exp_letters = [l for l in la[1:-1]] + [l2.upper()]
+        if list(r.dims.letters) != exp_letters or not np.array_equal(r.values, ref):
+            rec.violation(M, "big-read:wrong-entries-or-dims", {"dims": list(la), "shape": list(v.shape), "got_dims": list(r.dims.letters), "expected_dims": exp_letters}, prop="C06")
+    except Exception as e:
+        rec.violation(M, "big-read:raised", {"exc": repr(e)[:300], "dims": list(la)}, prop="C06")
+    # write a number into that region: exactly those entries change
+    t = fd.FlodymArray(dims=gen.dimset(fd, U, la), values=v.copy())
+    rec.event(M, sig=f"big-write|{la}|{v.shape}", cls="big|setitem")
+    try:
+        t[key] = -7.5
+        exp = v.copy()
+        idx = [slice(None)] * len(la)
+        idx[0] = U[l1].items.index(it1)
+        sl_ = exp[tuple(idx)]
+        sl_[(slice(None),) * (len(la) - 2) + (pos2,)] = -7.5
+        if not np.array_equal(t.values, exp):
+            rec.violation(M, "big-write:wrong-entries-changed", {"dims": list(la), "shape": list(v.shape), "n_diff": int((t.values != exp).sum())}, prop="C06")
+    except Exception as e:
+        rec.violation(M, "big-write:raised", {"exc": repr(e)[:300], "dims": list(la)}, prop="C06")
+
+
 def do_float32_targets(hub, U, letters, rng):
     """single-precision targets receive double-precision sources whose sums cancel: the sum must be formed before rounding"""
     fd = hub.fd
